@@ -116,6 +116,38 @@ MUTANTS = [
     (TC, "choose_local_compress_gauge_settings::defaults-resolved",
      "            # default to r=3 gauge\n            tree_gauge_distance = 3", "            # default to r=3 gauge\n            tree_gauge_distance = 1",
      "expect-fail"),
+    # ---------------------------------------------------------------- tensor_multifuse / tensor_make_single_bond
+    (TC, "tensor_multifuse::fused-gauge-aligned-with-fused-legs",      # THE swap: kron(y, x) against first-index-major legs
+     'gauges[bond_ind] = functools.reduce(lambda x, y: do("kron", x, y), gs)',
+     'gauges[bond_ind] = functools.reduce(lambda x, y: do("kron", y, x), gs)', "expect-fail"),
+    (TC, "tensor_make_single_bond::fused-gauge-aligned-with-fused-legs",   # the same swap seen through the caller
+     'gauges[bond_ind] = functools.reduce(lambda x, y: do("kron", x, y), gs)',
+     'gauges[bond_ind] = functools.reduce(lambda x, y: do("kron", y, x), gs)', "expect-fail"),
+    (TC, "tensor_multifuse::fused-gauge-aligned-with-fused-legs",      # a gauge dropped from the product
+     'gauges[bond_ind] = functools.reduce(lambda x, y: do("kron", x, y), gs)',
+     'gauges[bond_ind] = functools.reduce(lambda x, y: do("kron", x, do("ones_like", y)), gs)', "expect-fail"),
+    (TC, "tensor_multifuse::gauges-old-removed-new-added",             # wrong pop: the old bond entries stay behind
+     "            gauges.pop(ix)\n            if ix in gauges\n",
+     "            gauges[ix]\n            if ix in gauges\n", "expect-fail"),
+    (TC, "tensor_multifuse::gauges-old-removed-new-added",             # wrong pop: only the first bond's gauge is looked at
+     "        gs = [\n            gauges.pop(ix)\n            if ix in gauges\n",
+     "        gs = [\n            gauges.pop(ix)\n            if ix == inds[0] and ix in gauges\n", "expect-fail"),
+    (TC, "tensor_multifuse::fused-gauge-aligned-with-fused-legs",      # missing gauge not replaced by the identity of its size
+     '            else do("ones", ts[0].ind_size(ix), like=ts[0].data)\n            for ix in inds\n        ]\n        # contract into a single gauge',
+     '            else do("ones", 1, like=ts[0].data)\n            for ix in inds\n        ]\n        # contract into a single gauge',
+     "expect-fail"),
+    (TC, "tensor_multifuse::legs-fused-consistently",                  # legs fused in another order than the gauges
+     "        t.fuse_({bond_ind: inds})\n\n\ndef tensor_make_single_bond",
+     "        t.fuse_({bond_ind: sorted(inds, key=t.inds.index)})\n\n\ndef tensor_make_single_bond", "expect-fail"),
+    (TC, "tensor_make_single_bond::gauges-old-removed-new-added",      # the caller forgets to hand the gauges down
+     "                shared,\n                gauges=gauges,\n                bond_ind=bond_ind,\n            )\n\n    return left, bond_ind, right",
+     "                shared,\n                bond_ind=bond_ind,\n            )\n\n    return left, bond_ind, right", "expect-fail"),
+    (TC, "tensor_make_single_bond::bond-choice",
+     "        if bond_ind is None:\n            bond_ind = shared[0]\n        elif not isinstance(bond_ind, str):",
+     "        if bond_ind is None:\n            bond_ind = shared[-1]\n        elif not isinstance(bond_ind, str):", "expect-fail"),   # bond name pinned: callers (tensor_fuse_squeeze, gauges dict) key on it
+    (TC, "tensor_multifuse::",                                         # benign: same product, other spelling
+     'gauges[bond_ind] = functools.reduce(lambda x, y: do("kron", x, y), gs)',
+     'gauges[bond_ind] = functools.reduce(lambda u, v: do("kron", u, v), gs[1:], gs[0])', "benign"),
 ]
 
 
